@@ -118,6 +118,7 @@ def run_shard(spec, rep):
         # the same Composition OBJECT converted for a second mixture, and again after its fraction was reassigned
         try:
             _same_object_history(rep, case, mix, rng, Composition, CompositionType)
+            _tamper_returned(rep, case, mix, rng, Composition, CompositionType)
         except InvBroken as e:
             rep.violation("class-invariant 0<=p<=1", case, {"error": str(e)})
         # constructor rejection
@@ -138,6 +139,20 @@ def run_shard(spec, rep):
     rep.count("invariant_evaluations", inv_state["evals"])
     if inv_state["evals"] == 0:
         rep.mark_inconclusive("Composition invariant was never evaluated")
+
+
+def _tamper_returned(rep, case, mix, rng, Composition, CompositionType):
+    """the caller recycles a Composition it got back from a conversion (assigns a new fraction to it): later conversions
+    of the same input must still be the exact image"""
+    m1, m2 = mix.first_component.molecular_weight, mix.second_component.molecular_weight
+    for typ, conv, exact in ((CompositionType.weight, "to_molar", _exact_molar), (CompositionType.molar, "to_weight", _exact_weight)):
+        p = rng.choice([0.0, 1.0, rng.uniform(0.05, 0.95), rng.uniform(0.05, 0.95)])
+        r = getattr(Composition(p=p, type=typ), conv)(mix)
+        r.p = rng.uniform(0.05, 0.95)
+        got = getattr(Composition(p=p, type=typ), conv)(mix).p
+        ex = exact(p, m1, m2)
+        rep.check("a recycled (re-assigned) returned Composition does not affect later conversions", abs(Fraction(got) - ex), 8 * EPS * ex + Fraction(4e-323),
+                  dict(case, conversion=conv, p=p), {"got": got, "exact": float(ex)})
 
 
 def _same_object_history(rep, case, mix, rng, Composition, CompositionType):
